@@ -152,7 +152,7 @@ BUILTINS = ["HaltonSampler", "RandomUniformSampler", "RSequenceSampler", "BestBa
             "RandomForestSampler", "XGBoostSampler", "ParticleSwarmSampler", "CORSSampler"]
 
 
-def gen_builtin_scn(rng, extreme=False) -> ch.Scn:
+def gen_builtin_scn(rng, extreme=False, force_swarm=False) -> ch.Scn:
     if extreme == "tiny":
         # a search space of 3 or 9 points that the run exhausts: the de-duplication redraws give up and batches contain repeats
         dims = rng.choice([1, 2])
@@ -161,6 +161,19 @@ def gen_builtin_scn(rng, extreme=False) -> ch.Scn:
         return ch.Scn(ensemble=rng.randint(1, 2), simlen=dims + 3, dims=dims, seed=rng.randrange(10 ** 5), lineup=lineup, verbose=rng.random() < 0.5,
                       bounds=(tuple(0.0 for _ in range(dims)), tuple(1.0 for _ in range(dims))), precision=tuple(0.5 for _ in range(dims)),
                       loss_fn=rng.choice(["sum", "dist"]), ops=[("C", rng.randint(1, 3)) for _ in range(rng.randint(3, 4))])
+    if extreme == "stateful":
+        # a sampler that keeps state of its own between calls (the swarm's personal bests, the CORS batch counter, a best-batch view of the history)
+        # gets many batches of its own within few calibrate() calls, with losses that keep improving: whatever it keeps or rewrites between calls,
+        # the rows recorded earlier must stay as they were
+        dims = rng.choice([1, 2, 3])
+        st = "ParticleSwarmSampler" if force_swarm else rng.choice(["ParticleSwarmSampler", "BestBatchSampler", "CORSSampler"])
+        lineup = [("HaltonSampler", 4, None, None), (st, rng.randint(2, 4) if st != "CORSSampler" else 2, None, rng.choice([None, 7]))]
+        if st == "ParticleSwarmSampler" and rng.random() < 0.5:
+            lineup = lineup[1:]                 # the swarm alone: it starts on an empty history
+        nops = rng.randint(3, 5)
+        return ch.Scn(ensemble=rng.randint(1, 2), simlen=dims + 3, dims=dims, seed=rng.randrange(10 ** 5), lineup=lineup, verbose=rng.random() < 0.5,
+                      bounds=(tuple(0.0 for _ in range(dims)), tuple(1.0 for _ in range(dims))), precision=tuple(0.01 for _ in range(dims)),
+                      loss_fn=rng.choice(["dist", "sum"]), ops=[("C", rng.randint(2, 3) if st != "CORSSampler" else 2) for _ in range(nops)])
     dims = rng.choice([1, 2, 2, 3])
     names = ["HaltonSampler"] + [rng.choice(BUILTINS) for _ in range(rng.randint(1, 4))]
     if extreme:
@@ -223,10 +236,11 @@ def run(chk: Check):
                          {"scenario": scn_json(scn), "op_index": k, "fields": ch.diff_fields(a, b) if k is not None and k >= 0 else None,
                           "impl": a[:600], "model": b[:600]})
     # built-in samplers (recorded outputs), incl. the XGBoost float32-overflow case
-    nb_runs = 10 if chk.tier == "quick" else 150
+    nb_runs = 14 if chk.tier == "quick" else 200
     for i in range(nb_runs):
-        scn = gen_builtin_scn(rng, extreme="tiny" if i % 4 == 3 else "offset" if i % 6 == 2 else ("inf" if i % 3 == 1 else True) if i % 3 != 2 else False)
-        chk.count("builtin:" + ("tiny_space" if i % 4 == 3 else "other"))
+        kind = "stateful" if i % 7 in (4, 6) else "tiny" if i % 4 == 3 else "offset" if i % 6 == 2 else ("inf" if i % 3 == 1 else True) if i % 3 != 2 else False
+        scn = gen_builtin_scn(rng, extreme=kind, force_swarm=(i % 7 == 4))
+        chk.count("builtin:" + ("tiny_space" if kind == "tiny" else "stateful_sampler_many_own_batches:" + scn.lineup[-1][0] if kind == "stateful" else "other"))
         lines, info, errs = run_with_oracle(chk, scn, "builtin")
         chk.case(scn_json(scn), True, {"lineup": [c for c, *_ in scn.lineup], "loss_fn": scn.loss_fn, "ops": scn.ops})
         chk.count("builtin_lineups"); chk.count("losses:" + str(scn.loss_fn))
